@@ -12,7 +12,8 @@ from . import core
 from .worker import dumps, get_prop
 
 PY = "/venv/bin/python"
-WORK = os.path.join(core.VERIF_ROOT, ".work")
+OUT_ROOT = os.environ.get("TICCSIM_OUT", core.VERIF_ROOT)   # redirected when testing mutants
+WORK = os.path.join(OUT_ROOT, ".work")
 KNOWN_FILE = os.path.join(core.VERIF_ROOT, "KNOWN_FINDINGS.txt")
 NCPU = 16
 
@@ -111,8 +112,8 @@ def run_check(prop_id, tier, base_seed=None):
     outdir = os.path.join(WORK, prop_id)
     shutil.rmtree(outdir, ignore_errors=True)
     os.makedirs(outdir, exist_ok=True)
-    os.makedirs(os.path.join(core.VERIF_ROOT, "replays"), exist_ok=True)
-    os.makedirs(os.path.join(core.VERIF_ROOT, "evidence"), exist_ok=True)
+    os.makedirs(os.path.join(OUT_ROOT, "replays"), exist_ok=True)
+    os.makedirs(os.path.join(OUT_ROOT, "evidence"), exist_ok=True)
     plan = prop.plan(tier)
     soft = plan.pop("_soft_deadline", 100 if tier == "quick" else 1500)
     hard = plan.pop("_hard_deadline", soft + 240)
@@ -141,7 +142,7 @@ def run_check(prop_id, tier, base_seed=None):
         # confirm at most 3 instances per key by replay in a fresh interpreter
         confirmed = None
         for r, f in items[:3]:
-            path = os.path.join(core.VERIF_ROOT, "replays", f"{pid}-{key.replace(':', '_').replace('/', '_')}-{r['seed']}.json")
+            path = os.path.join(OUT_ROOT, "replays", f"{pid}-{key.replace(':', '_').replace('/', '_')}-{r['seed']}.json")
             rp = dict(property=pid, key=key, detail=f["detail"], mode=r["mode"], seed=r["seed"],
                       case=f["case"], extra=f.get("extra", {}))
             with open(path, "w") as fh:
@@ -202,7 +203,7 @@ def run_check(prop_id, tier, base_seed=None):
     )
     ev = dict(property_id=prop_id, tier=tier, seed=int(base_seed), level=prop.level, coverage=coverage,
               assumptions=list(prop.assumptions), wall_s=round(wall, 2), violations=len(violations))
-    with open(os.path.join(core.VERIF_ROOT, "evidence", f"{prop_id}.json"), "w") as fh:
+    with open(os.path.join(OUT_ROOT, "evidence", f"{prop_id}.json"), "w") as fh:
         fh.write(json.dumps(json.loads(dumps(ev)), indent=1, sort_keys=True))
 
     for (pid, key), (text, n, path) in sorted(known_hits.items()):
